@@ -69,8 +69,9 @@ Proof. exact (conj (fun s => eq_refl) persist). Qed.
 Print Assumptions C18_persist.
 
 (* No store at all - hence no record the API can create - makes AuthenticateUser,
-   AuthoriseNewSession, GetUserInfo, ListAllUsers or UploadStatus panic, and no history
-   panics (decoders as they are now). *)
+   AuthoriseNewSession, GetUserInfo, ListAllUsers or UploadStatus panic, no history panics,
+   and the owner of any record can connect (GetUser -> MakeValve -> GetSession) and have usage
+   uploaded without a panic: the code as it is now (decoders since cd5140b, GetUser since 638655d). *)
 Theorem C18_no_panic :
   forall now s,
   ((forall u, authenticate true now s u <> Panic) /\
@@ -78,9 +79,29 @@ Theorem C18_no_panic :
    (forall p, get_user true s p <> Panic) /\
    list_all true s <> Panic /\
    (forall l, upload true now s l <> Panic)) /\
-  (forall ops, exists q, run true now s ops = Ok q).
-Proof. exact (fun now s => conj (no_panic_fixed now s) (fun ops => run_total now ops s)). Qed.
+  (forall ops, exists q, run true now s ops = Ok q) /\
+  ((forall u, exists c, connect true true now s u = Ok c) /\
+   (forall u rx tx, exists q, connect_use true true now s u rx tx = Ok q)).
+Proof. exact (fun now s => conj (no_panic_fixed now s) (conj (fun ops => run_total now ops s) (no_panic_connect now s))). Qed.
 Print Assumptions C18_no_panic.
+
+(* The same in the words of the property: after any history, the owner of any record connects
+   without a panic. *)
+Theorem C18_no_panic_on_connect :
+  forall now ops u s os, Forall op_ok ops -> run true now [] ops = Ok (s, os) ->
+    connect true true now s u <> Panic.
+Proof. exact no_panic_on_connect_now. Qed.
+Print Assumptions C18_no_panic_on_connect.
+
+(* What the guard costs: a record is refused with ErrBadRate exactly when it would have been
+   authenticated with a rate that is not positive; every other outcome is as before the fix. *)
+Theorem C18_badrate_exact :
+  (forall now s u,
+     connect true true now s u = Ok (CnAuthErr ErrBadRate) <->
+     exists up down, authenticate true now s u = Ok (AuthOk up down) /\ (up <= 0 \/ down <= 0)) /\
+  (forall now s u c, connect false true now s u = Ok c -> connect true true now s u = Ok c).
+Proof. exact (conj connect_badrate_iff connect_guard_agree). Qed.
+Print Assumptions C18_badrate_exact.
 
 (* F7 (repaired in /repo by cd5140b): with the decoder in its earlier shape a record created
    with only UpCredit panics every reader, and a history that lists afterwards panics. *)
@@ -100,29 +121,28 @@ Theorem C18_refuted_prefix_nil_authorise :
 Proof. exact refuted_prefix_nil_authorise. Qed.
 Print Assumptions C18_refuted_prefix_nil_authorise.
 
-(* The full statement about the owner connecting (GetUser -> MakeValve -> GetSession) ... *)
-Definition C18_full : Prop :=
-  forall now ops u s os, Forall op_ok ops -> run true now [] ops = Ok (s, os) ->
-    connect false true now s u <> Panic.
-(* ... is FALSE of the code as it is (F8, open): a user created with credits and expiry only
-   has rates 0, passes AuthenticateUser and reaches ratelimit.NewBucketWithRate(0, 0). *)
-Theorem C18_makevalve_refuted : ~ C18_full.
+(* F8 (repaired in /repo by 638655d): with GetUser in its earlier shape (no guard) the same
+   statement is FALSE - a user created with credits and expiry only has rates 0, passes
+   AuthenticateUser and reaches ratelimit.NewBucketWithRate(0, 0), which panics. *)
+Theorem C18_refuted_prefix_makevalve :
+  ~ (forall now ops u s os, Forall op_ok ops -> run true now [] ops = Ok (s, os) ->
+       connect false true now s u <> Panic).
 Proof. exact makevalve_refuted. Qed.
-Print Assumptions C18_makevalve_refuted.
-Theorem C18_makevalve_refuted_negative :
+Print Assumptions C18_refuted_prefix_makevalve.
+Theorem C18_refuted_prefix_makevalve_negative :
   exists s os, run true 50 [] wit_neg_rate = Ok (s, os) /\ authenticate true 50 s wit_uid16 = Ok (AuthOk 10 (-1))
     /\ connect false true 50 s wit_uid16 = Panic /\ connect true true 50 s wit_uid16 = Ok (CnAuthErr ErrBadRate).
 Proof. exact makevalve_refuted_negative. Qed.
-Print Assumptions C18_makevalve_refuted_negative.
+Print Assumptions C18_refuted_prefix_makevalve_negative.
 
-(* What does hold, exactly: the connect path panics if and only if the record passes
-   AuthenticateUser with a rate that is not positive. *)
-Theorem C18_partial :
+(* What did hold before the fix, exactly: the unguarded connect path panics if and only if the
+   record passes AuthenticateUser with a rate that is not positive. *)
+Theorem C18_prefix_makevalve_exact :
   forall now s u,
   connect false true now s u = Panic <->
   exists up down, authenticate true now s u = Ok (AuthOk up down) /\ (up <= 0 \/ down <= 0).
 Proof. exact connect_panic_iff. Qed.
-Print Assumptions C18_partial.
+Print Assumptions C18_prefix_makevalve_exact.
 Theorem C18_partial_no_panic_positive_rates :
   forall now s u,
   (forall up down, authenticate true now s u = Ok (AuthOk up down) -> 0 < up /\ 0 < down) ->
@@ -134,14 +154,6 @@ Example C18_partial_hyps :
     /\ (forall up down, authenticate true 50 s wit_uid16 = Ok (AuthOk up down) -> 0 < up /\ 0 < down)
     /\ connect false true 50 s wit_uid16 = Ok (CnOk 100 1000).
 Proof. exact example_positive_rates. Qed.
-
-(* With the proposed guard (repo_patches/F8_nonpositive_rate.diff) the connect path is total,
-   and it agrees with the unguarded one wherever that one does not panic. *)
-Theorem C18_patched_no_panic :
-  (forall now s u, exists c, connect true true now s u = Ok c) /\
-  (forall now s u c, connect false true now s u = Ok c -> connect true true now s u = Ok c).
-Proof. exact (conj connect_guarded_total connect_guard_agree). Qed.
-Print Assumptions C18_patched_no_panic.
 
 (* Observation O5 (not a violation): SessionsCap -1 is shown as -1 and enforced as 2^32-1. *)
 Example C18_O5_negative_cap :
